@@ -99,6 +99,24 @@ def run(ctx):
                     ctx.fail("K1.second-notion", "%s|%s" % (op, c["path"]), "the operator %r decides with %s, a different value→bool function than the shared truthiness table" % (op, c["path"]), where=s.where(), fn=s.body.key)
             for s in u.calls(lambda c: re.match(r"^serde_json::Value::(as_bool|is_boolean|is_null|is_number|is_string|is_array|is_object|as_f64|as_i64|as_u64)$", c["path"]) is not None):
                 ctx.fail("K1.second-notion", "%s|%s" % (op, callee_path(s.term)), "the operator %r inspects a value with %s instead of the shared truthiness table" % (op, callee_path(s.term)), where=s.where(), fn=s.body.key)
+            # what the position has interpreted are its operands as written: it does not build a JSON value at run time and
+            # hand that to the parser as if it were rule text (e.g. negating a predicate by wrapping it in {"!": …} instead of
+            # negating the verdict: the wrapped rule is read by the operator sugar, `[0]` becomes an argument list, and the
+            # position disagrees with the table on that value).  Read on the parsed expression, with a helper's parameters
+            # replaced by what each of its call sites in the unit passes.
+            for s in u.calls(lambda c: c.get("key") in roles.sinks):
+                c = callee_of(s.term)
+                pos = roles.sinks[c["key"]][0]
+                if pos - 1 >= len(s.term["args"]):
+                    continue
+                for x, at in _in_context(u, s.body, s.body.xtrace(s.term["args"][pos - 1]), s):
+                    x = strip_refs(x)
+                    while x[0] == "call" and x[1] and re.search(r"Clone>::clone$|Deref>::deref$|::as_ref$|::borrow$", x[1]["path"]) and x[2]:
+                        x = strip_refs(x[2][0])
+                    if x[0] == "agg" and x[1].get("adt") == VALUE:
+                        ctx.fail("K1.operand-as-written", "%s|Value::%s" % (op, x[1].get("variant")),
+                                 "the operator %r builds a JSON %s at run time and has it interpreted as rule text: what it decides on is not its operand as written (the built rule goes through the operator sugar again, so the position can disagree with the truthiness table on the same value)" % (op, x[1].get("variant")),
+                                 where=at.where(), fn=at.body.key)
             # what is tested is an evaluated value (an operand or an evaluation result), not something
             # looked up in the data or taken from the rule text by other means
             for s in sites:
@@ -148,7 +166,18 @@ def run(ctx):
         # none through some
         nb, ne = roles.fn_of("none")
         sb, se = roles.fn_of("some")
-        ctx.check(any(callee_of(t) and callee_of(t).get("key") == sb.key for _, t in nb.calls()), "K1.none-via-some", "none is decided through some (%s)" % cfg, "the function bound to `none` does not call the function bound to `some`", where=nb.where(), fn=nb.key)
+        # `none` takes no truthiness decision of its own: whatever it decides, it decides at the very call sites of the shared
+        # function at which `some` decides (it calls `some`, or both are thin wrappers of one helper) — stated on the
+        # truthiness sites the two operators reach, not on which function calls which
+        stop_ = [truthy.key] + sorted(fw)
+        t_sites = lambda u_: {(s_.body.key, s_.bi) for s_ in u_.calls(lambda c: c.get("key") in ok_keys)}
+        n_sites, s_sites = t_sites(Unit(roles, nb.key, extended=True, stop=stop_)), t_sites(Unit(roles, sb.key, extended=True, stop=stop_))
+        if not s_sites:
+            ctx.unread("K1.none-via-some", "none is decided through some (%s)" % cfg, "`some` reaches no call of the shared truthiness function (K1.shared reports that); nothing to compare `none` with", where=nb.where(), fn=nb.key)
+        else:
+            ctx.check(n_sites == s_sites, "K1.none-via-some", "none is decided through some (%s)" % cfg,
+                      "the function bound to `none` takes truthiness decisions at %s, `some` at %s: `none` is not the negation of the very decision `some` takes" % (sorted(n_sites) or "no site", sorted(s_sites)),
+                      where=nb.where(), fn=nb.key, nontrivial=True)
         ab, ae = roles.fn_of("?:")
         ib, ie = roles.fn_of("if")
         ctx.check(ab.key == ib.key, "K1.alias", "?: is bound to the same function as if (%s)" % cfg, "?: and if are bound to different functions", where=ib.where(), fn=ib.key)
@@ -181,6 +210,28 @@ def run(ctx):
 
         # ---------------- K3
         table(ctx, facts, roles, truthy, cfg)
+
+
+def _in_context(u, b, x, site, depth=0):
+    """[(expression, site)] — x (x-traced in body b) with the parameters of a helper function of the unit replaced by the
+    arguments of each of its call sites in the unit (context-sensitive, bounded depth)."""
+    owner = b
+    while owner.kind == "closure" and owner.creator():
+        owner = owner.creator()[0]
+    if depth < 3 and owner.key != u.root.key and owner.kind == "fn" and expr_mentions(x, lambda y: y[0] == "arg"):
+        callers = [s2 for s2 in u.calls(lambda c, _k=owner.key: c.get("key") == _k)]
+        if callers:
+            out = []
+            for s2 in callers:
+                def sub(e_, _s2=s2):
+                    if not isinstance(e_, tuple):
+                        return e_
+                    if e_[0] == "arg" and isinstance(e_[1], int) and 0 <= e_[1] - 1 < len(_s2.term["args"]):
+                        return _s2.body.xtrace(_s2.term["args"][e_[1] - 1])
+                    return tuple([sub(y) for y in z] if isinstance(z, list) else sub(z) for z in e_)
+                out.extend(_in_context(u, s2.body, sub(x), s2, depth + 1))
+            return out
+    return [(x, site)]
 
 
 def mentions_local(o, l):
